@@ -51,3 +51,7 @@ reg("C07", "exploration",
     "Robustness fuzzing with a class oracle: C01 texts under 1..4 character/token/line mutations (every grammar metacharacter inserted), mutated override specifier lists, include graphs over three real files (self, mutual, missing, directory includes; good and bad %import) and the validator command on those files; every outcome must be a return or a ZConfig.ConfigurationError (a datatype's own exception passes through unchanged); the validator must return 0/1 consistently with direct loads and print exactly one message per rejected file. Failures are bucketed by (exception type, innermost ZConfig function).",
     "Exotic URL syntax in %include (U12) is outside the quantifier and not generated. Datatypes of generated schemas reject with ValueError.",
     "mutation fuzzing of texts, override lists and include graphs + exception-class oracle with root-cause bucketing")
+reg("C18", "exploration",
+    "(a) Metamorphic: random 3-level directory layouts with URL-hostile file and directory names (blanks, & ; [ ] ~ + non-ASCII) holding a schema with an extends chain and <import src> across directories and a configuration with nested %include across directories; each is loaded by absolute path, relative path, file: URL and absolute-/relative-named file objects from four current directories (inside and outside the tree) and all results must be digest-equal, schema.url and error URLs must be file:///; fragment-carrying %include / extends / src / top URLs must be rejected. (b) Reference check of isPath, urlnormalize, urldefrag on every string of length <= 6/7 and of urljoin (5 bases) and normalizeURL on every string of length <= 5/6 over {a C : / \\ # . f i l e}.",
+    "(a) no model; (b) trusted: the small reference functions in zcv/props/c18.py. 'file://x' (U13): only the 'file:///' prefix is asserted. Contents are \\n-only.",
+    "exhaustive enumeration vs. reference functions + random directory layouts with a metamorphic relation across entry points")
